@@ -254,6 +254,18 @@ func (b *setBox[T]) Ops() []Op {
 	for ti := range b.sys.Tuples {
 		ops = append(ops, op("Remove", ti))
 	}
+	if !b.sys.NoCtor {
+		// a loaded set is a start state too: FromJSON of the arrays with repeated elements (the (x,y,x)
+		// and (x,x) tuples), of [] and of null - the set must deduplicate like Add does
+		for ti, t := range b.sys.Tuples {
+			if (len(t) == 2 || len(t) == 3) && !(b.sys.MaxSize > 0 && len(t) > b.sys.MaxSize) {
+				if _, err := json.Marshal(b.tuple(ti)); err == nil {
+					ops = append(ops, op("FromJSON", ti))
+				}
+			}
+		}
+		ops = append(ops, op("FromJSON", -1), op("FromJSON", -2))
+	}
 	if len(b.ref) == 0 && !b.sys.NoCtor {
 		// constructor forms: New(values...) for every tuple (duplicates inside the argument list included)
 		for ti, t := range b.sys.Tuples {
@@ -265,12 +277,29 @@ func (b *setBox[T]) Ops() []Op {
 	return append(ops, op("Clear"))
 }
 
+func (b *setBox[T]) jsonArg(ti int) []byte {
+	switch ti {
+	case -1:
+		return []byte("[]")
+	case -2:
+		return []byte("null")
+	}
+	d, err := json.Marshal(b.tuple(ti))
+	if err != nil {
+		panic("tool error: set tuple is not JSON-representable: " + err.Error())
+	}
+	return d
+}
+
 func (b *setBox[T]) Describe(o Op) string {
 	if o.N == "Clear" {
 		return "Clear()"
 	}
 	if o.N == "New" {
 		return fmt.Sprintf("replaced by New(%v...)", b.tuple(o.A[0]))
+	}
+	if o.N == "FromJSON" {
+		return fmt.Sprintf("FromJSON(%s)", b.jsonArg(o.A[0]))
 	}
 	if b.sys.Gen != nil {
 		nm := "Add"
@@ -378,6 +407,17 @@ func (b *setBox[T]) Do(o Op) *Viol {
 	case "Clear":
 		b.a.clear()
 		b.ref, b.reps = nil, nil
+	case "FromJSON":
+		data := b.jsonArg(o.A[0])
+		if err := b.a.obj.(interface{ FromJSON([]byte) error }).FromJSON(data); err != nil {
+			return viol(tag("C04", "C12"), "mismatch", "FromJSON(%s) failed: %v", data, err)
+		}
+		b.ref, b.reps = nil, nil
+		if o.A[0] >= 0 {
+			for _, x := range b.tuple(o.A[0]) {
+				b.refAdd(x)
+			}
+		}
 	case "New":
 		// a set built by the VARIADIC constructor takes the place of the (empty) one: same discipline as
 		// New() followed by Add(values...)
